@@ -111,6 +111,14 @@ Leaves == {
   E(Bin("*", IntL("1"), Ref("v")), <<P("+"), IdT("v")>>, FALSE, TRUE),
   E(Bin("*", IntL("-1"), Paren(Ref("v"))), <<P("-"), PT("("), IdT("v"), PT(")")>>, FALSE, TRUE),
   E(Bin("*", IntL("-1"), Call("f", <<Ref("v")>>)), <<P("-"), IdT("f"), PT("("), IdT("v"), PT(")")>>, TRUE, TRUE),
+  \* a multiplication by -1 / 1 that the user wrote (the desugared sign has the same shape with a non-literal right factor)
+  E(Bin("*", IntL("-1"), IntL("60")), <<P("-"), IntT("1"), P("*"), Int("60")>>, FALSE, TRUE),
+  E(Bin("*", IntL("-1"), NumL("0.5")), <<P("-"), IntT("1"), P("*"), Num("0.5")>>, FALSE, TRUE),
+  E(Bin("*", IntL("-1"), DurL(NsOf("1w"))), <<P("-"), IntT("1"), P("*"), Dur("7d")>>, FALSE, TRUE),
+  E(Bin("*", IntL("-1"), IntL("-2")), <<P("-"), IntT("1"), P("*"), P("-"), IntT("2")>>, FALSE, TRUE),
+  E(Bin("*", IntL("1"), IntL("60")), <<Int("1"), P("*"), Int("60")>>, FALSE, TRUE),
+  E(Bin("-", Ref("v"), IntL("-2")), <<Id("v"), P("-"), P("-"), IntT("2")>>, FALSE, TRUE),
+  E(Bin("*", Ref("v"), IntL("-1")), <<Id("v"), P("*"), P("-"), IntT("1")>>, FALSE, TRUE),
   E(Paren(Ref("v")), <<P("("), IdT("v"), PT(")")>>, FALSE, TRUE),
   E(Paren(Paren(IntL("1"))), <<P("("), PT("("), IntT("1"), PT(")"), PT(")")>>, FALSE, TRUE),
   \* calls that occur only inside parentheses (the statement is still not a raw query)
